@@ -429,16 +429,20 @@ theorem zeroFine_srun (x : Ext) (n : Nat) {t : Ty} {z : V} (h : zeroFine t z = t
 
 /-! ### defaults of absent properties -/
 
-/-- what `convertData` adds for one absent property -/
-def dflStep (fuel : Nat) (p : SProp) : Out (Option V) :=
+/-- what `convertData` adds for one absent property; `skip`: the property is mapped to a pointer or
+    interface field (`fieldSkips`), so the defaults of a sub-object are not expanded -/
+def dflStep (skip : Bool) (fuel : Nat) (p : SProp) : Out (Option V) :=
   match p.rules.defaultV with
   | some none => .panic
-  | d => subDefS fuel p.ty (match d with | some (some v) => some v | _ => none)
+  | d =>
+    if skip then .ok (match d with | some (some v) => some v | _ => none)
+    else subDefS fuel p.ty (match d with | some (some v) => some v | _ => none)
 
-theorem applyDefaultsS_cons (fuel : Nat) (k : String) (p : SProp) (rest : List (String × SProp)) (m : List (String × V)) :
-    applyDefaultsS fuel ((k, p) :: rest) m =
-      if hasKey k m then applyDefaultsS fuel rest m else
-        (dflStep fuel p).bind fun o => applyDefaultsS fuel rest (match o with | some v => m ++ [(k, v)] | none => m) := by
+theorem applyDefaultsS_cons (st : StructTy) (fuel : Nat) (k : String) (p : SProp) (rest : List (String × SProp)) (m : List (String × V)) :
+    applyDefaultsS st fuel ((k, p) :: rest) m =
+      if hasKey k m then applyDefaultsS st fuel rest m else
+        (dflStep (fieldSkips st k) fuel p).bind fun o =>
+          applyDefaultsS st fuel rest (match o with | some v => m ++ [(k, v)] | none => m) := by
   simp only [applyDefaultsS, dflStep]
   split
   · rfl
@@ -456,22 +460,22 @@ theorem hasKey_append_left {α} {k : String} {m : List (String × α)} (h : hasK
     hasKey k (m ++ tl) = true := by
   rw [hasKey_append]; simp [h]
 
-theorem applyDefaultsS_extends (fuel : Nat) : ∀ (ps : List (String × SProp)) (m m0 : List (String × V)),
-    applyDefaultsS fuel ps m = .ok m0 → ∀ k, hasKey k m = true → hasKey k m0 = true
+theorem applyDefaultsS_extends (st : StructTy) (fuel : Nat) : ∀ (ps : List (String × SProp)) (m m0 : List (String × V)),
+    applyDefaultsS st fuel ps m = .ok m0 → ∀ k, hasKey k m = true → hasKey k m0 = true
   | [], m, m0, h, k, hk => by simp only [applyDefaultsS, Out.ok.injEq] at h; subst h; exact hk
   | (k', p) :: rest, m, m0, h, k, hk => by
     rw [applyDefaultsS_cons] at h
     split at h
-    · exact applyDefaultsS_extends fuel rest m m0 h k hk
+    · exact applyDefaultsS_extends st fuel rest m m0 h k hk
     · obtain ⟨o, _, h⟩ := Out.bind_eq_ok h
-      refine applyDefaultsS_extends fuel rest _ m0 h k ?_
+      refine applyDefaultsS_extends st fuel rest _ m0 h k ?_
       cases o with
       | none => exact hk
       | some v => exact hasKey_append_left hk _
 
 /-- a property that is absent after the defaults were applied had nothing to add -/
-theorem applyDefaultsS_absent (fuel : Nat) : ∀ (ps : List (String × SProp)) (m m0 : List (String × V)),
-    applyDefaultsS fuel ps m = .ok m0 → ∀ kp, kp ∈ ps → hasKey kp.1 m0 = false → dflStep fuel kp.2 = .ok none
+theorem applyDefaultsS_absent (st : StructTy) (fuel : Nat) : ∀ (ps : List (String × SProp)) (m m0 : List (String × V)),
+    applyDefaultsS st fuel ps m = .ok m0 → ∀ kp, kp ∈ ps → hasKey kp.1 m0 = false → dflStep (fieldSkips st kp.1) fuel kp.2 = .ok none
   | [], _, _, _, kp, hkp, _ => by cases hkp
   | (k', p) :: rest, m, m0, h, kp, hkp, hno => by
     rw [applyDefaultsS_cons] at h
@@ -479,10 +483,10 @@ theorem applyDefaultsS_absent (fuel : Nat) : ∀ (ps : List (String × SProp)) (
     · rename_i hk
       rcases List.mem_cons.mp hkp with hkp | hkp
       · subst hkp
-        have := applyDefaultsS_extends fuel rest m m0 h k' hk
+        have := applyDefaultsS_extends st fuel rest m m0 h k' hk
         simp only [] at hno
         rw [this] at hno; cases hno
-      · exact applyDefaultsS_absent fuel rest m m0 h kp hkp hno
+      · exact applyDefaultsS_absent st fuel rest m m0 h kp hkp hno
     · obtain ⟨o, ho, h⟩ := Out.bind_eq_ok h
       rcases List.mem_cons.mp hkp with hkp | hkp
       · subst hkp
@@ -490,18 +494,18 @@ theorem applyDefaultsS_absent (fuel : Nat) : ∀ (ps : List (String × SProp)) (
         | none => exact ho
         | some v =>
           have : hasKey k' (m ++ [(k', v)]) = true := by rw [hasKey_append]; simp [hasKey, lookupS]
-          have := applyDefaultsS_extends fuel rest _ m0 h k' this
+          have := applyDefaultsS_extends st fuel rest _ m0 h k' this
           simp only [] at hno
           rw [this] at hno; cases hno
-      · exact applyDefaultsS_absent fuel rest _ m0 h kp hkp hno
+      · exact applyDefaultsS_absent st fuel rest _ m0 h kp hkp hno
 
 /-- when every absent property has nothing to add, the map is unchanged -/
-theorem applyDefaultsS_noadd (fuel : Nat) : ∀ (ps : List (String × SProp)) (m : List (String × V)),
-    (∀ kp, kp ∈ ps → hasKey kp.1 m = true ∨ dflStep fuel kp.2 = .ok none) → applyDefaultsS fuel ps m = .ok m
+theorem applyDefaultsS_noadd (st : StructTy) (fuel : Nat) : ∀ (ps : List (String × SProp)) (m : List (String × V)),
+    (∀ kp, kp ∈ ps → hasKey kp.1 m = true ∨ dflStep (fieldSkips st kp.1) fuel kp.2 = .ok none) → applyDefaultsS st fuel ps m = .ok m
   | [], m, _ => rfl
   | (k', p) :: rest, m, h => by
     rw [applyDefaultsS_cons]
-    have ih := applyDefaultsS_noadd fuel rest m (fun kp hkp => h kp (List.mem_cons_of_mem _ hkp))
+    have ih := applyDefaultsS_noadd st fuel rest m (fun kp hkp => h kp (List.mem_cons_of_mem _ hkp))
     split
     · exact ih
     · rename_i hk
@@ -541,7 +545,7 @@ theorem subDefS_some : ∀ (n : Nat) (t : STy) (d : V) (o : Option V), subDefS n
     | scope => simp only [subDefS, Out.ok.injEq] at h; subst h; rfl
 
 /-- a property with a declared default always has something to add -/
-theorem dflStep_none_default {fuel : Nat} {p : SProp} (h : dflStep fuel p = .ok none) : p.rules.default = none := by
+theorem dflStep_none_default {skip : Bool} {fuel : Nat} {p : SProp} (h : dflStep skip fuel p = .ok none) : p.rules.default = none := by
   unfold dflStep at h
   cases hd : p.rules.default with
   | none => rfl
@@ -559,16 +563,21 @@ theorem dflStep_none_default {fuel : Nat} {p : SProp} (h : dflStep fuel p = .ok 
     | none => simp at h
     | some v =>
       simp only [] at h
-      have := subDefS_some _ _ _ _ h
-      cases this
+      split at h
+      · cases h
+      · have := subDefS_some _ _ _ _ h
+        cases this
 
 /-- a treat-empty-as-default scalar without default has nothing to add -/
-theorem dflStep_plainLeaf {n : Nat} {p : SProp} (hl : plainLeaf p.ty = true) (hd : p.rules.default = none) :
-    dflStep (n + 1) p = .ok none := by
+theorem dflStep_plainLeaf {skip : Bool} {n : Nat} {p : SProp} (hl : plainLeaf p.ty = true) (hd : p.rules.default = none) :
+    dflStep skip (n + 1) p = .ok none := by
   unfold dflStep
   have : p.rules.defaultV = none := by unfold PropT.defaultV; rw [hd]
   rw [this]
   simp only []
+  split
+  · rfl
+  rename_i hsk
   cases hp : p.ty with
   | leaf t =>
     rw [hp] at hl
@@ -606,16 +615,16 @@ theorem forSVS_mem {α β} {f : String → α → Out β} : ∀ {l : List (Strin
 theorem addSeg_eq_ok {α} {o : Out α} {seg : String} {r : α} (h : o.addSeg seg = .ok r) : o = .ok r := by
   cases o <;> simp_all [Out.addSeg]
 
-theorem applyDefaultsS_nodup (fuel : Nat) : ∀ (ps : List (String × SProp)) (m m0 : List (String × V)),
-    applyDefaultsS fuel ps m = .ok m0 → (keysOf m).Nodup → (keysOf m0).Nodup
+theorem applyDefaultsS_nodup (st : StructTy) (fuel : Nat) : ∀ (ps : List (String × SProp)) (m m0 : List (String × V)),
+    applyDefaultsS st fuel ps m = .ok m0 → (keysOf m).Nodup → (keysOf m0).Nodup
   | [], m, m0, h, hn => by simp only [applyDefaultsS, Out.ok.injEq] at h; subst h; exact hn
   | (k', p) :: rest, m, m0, h, hn => by
     rw [applyDefaultsS_cons] at h
     split at h
-    · exact applyDefaultsS_nodup fuel rest m m0 h hn
+    · exact applyDefaultsS_nodup st fuel rest m m0 h hn
     · rename_i hk
       obtain ⟨o, _, h⟩ := Out.bind_eq_ok h
-      refine applyDefaultsS_nodup fuel rest _ m0 h ?_
+      refine applyDefaultsS_nodup st fuel rest _ m0 h ?_
       cases o with
       | none => exact hn
       | some v =>
@@ -629,11 +638,11 @@ theorem applyDefaultsS_nodup (fuel : Nat) : ∀ (ps : List (String × SProp)) (m
         intro e; subst e
         exact hnk ha
 
-theorem sobjRaw_facts {rec : SRec} {fuel : Nat} {props : List (String × SProp)} {v : SV} {m : List (String × SV)}
-    (h : sobjRaw rec fuel props v = .ok m) :
+theorem sobjRaw_facts {rec : SRec} {fuel : Nat} {st : StructTy} {props : List (String × SProp)} {v : SV} {m : List (String × SV)}
+    (h : sobjRaw rec fuel st props v = .ok m) :
     (keysOf m).Nodup ∧
     (∀ kv, kv ∈ m → ∃ p v0, lookupS kv.1 props = some p ∧ p.disabled = false ∧ rec .U p.ty v0 = .ok kv.2) ∧
-    (∀ kp, kp ∈ props → hasKey kp.1 m = false → dflStep fuel kp.2 = .ok none) := by
+    (∀ kp, kp ∈ props → hasKey kp.1 m = false → dflStep (fieldSkips st kp.1) fuel kp.2 = .ok none) := by
   unfold sobjRaw at h
   split at h
   · split at h
@@ -665,7 +674,7 @@ theorem sobjRaw_facts {rec : SRec} {fuel : Nat} {props : List (String × SProp)}
         · obtain ⟨m0, hm0, h⟩ := Out.bind_eq_ok h
           have hkeys : keysOf m = keysOf m0 := forSVS_keys h
           have hnd' : (keysOf skvs).Nodup := by simpa [keysOf] using hnd
-          refine ⟨by rw [hkeys]; exact applyDefaultsS_nodup fuel props skvs m0 hm0 hnd', ?_, ?_⟩
+          refine ⟨by rw [hkeys]; exact applyDefaultsS_nodup st fuel props skvs m0 hm0 hnd', ?_, ?_⟩
           · intro kv hkv
             obtain ⟨d, _, hf⟩ := forSVS_mem h kv hkv
             unfold entryUS at hf
@@ -678,7 +687,7 @@ theorem sobjRaw_facts {rec : SRec} {fuel : Nat} {props : List (String × SProp)}
                 exact ⟨p, .val d, hp, by simpa using hdis, addSeg_eq_ok hf⟩
           · intro kp hkp hno
             rw [hasKey_congr_keys hkeys] at hno
-            exact applyDefaultsS_absent fuel props skvs m0 hm0 kp hkp hno
+            exact applyDefaultsS_absent st fuel props skvs m0 hm0 kp hkp hno
 
 /-! ### one struct-mapped object -/
 
